@@ -99,7 +99,8 @@ pub(crate) fn sanitize_namespace(key: &str) -> String {
         })
         .collect();
 
-    if sanitized.trim_matches('_').is_empty() {
+    // Names made only of '_' and '.' ("", ".", "..") must not be used as a directory component
+    if sanitized.trim_matches(|c| c == '_' || c == '.').is_empty() {
         sanitized = format!("ns_{:x}", checksum64(key.as_bytes()));
     }
     sanitized
